@@ -367,6 +367,27 @@ COLLECTED_CASES = [
 ]
 
 
+# ---- an UNPACKING assignment inside a function declares locals like a plain `x = ..` does; its right side is evaluated first,
+# in the scope as it was: a name on the right that is also declared on the left reads the variable of the ENCLOSING scope
+# (`[a, b] = [b, a]`, the swap into locals), which therefore is captured, and is left untouched by the assignment
+UNPACK_CASES = [
+    ("swap-in-factory", "mk = fn() -> fn() -> int {\n  a = 1\n  b = 2\n  return fn() -> int {\n    [a, b] = [b, a]\n    return a * 10 + b\n  }\n}\ng = mk()\nprint g()\nprint g()\n", ["21", "21"]),
+    ("single-name-module", "x = 5\nf = fn() -> int {\n  [x] = [x]\n  return x + 1\n}\nprint f()\nprint x\nx = 7\nprint f()\n", ["6", "5", "8"]),
+    ("swap-in-method", "a = 1\nb = 2\nclass S {\n  fn swap(self) -> int {\n    [a, b] = [b, a]\n    return a * 10 + b\n  }\n}\nprint (S()).swap()\nprint a\nprint b\n", ["21", "1", "2"]),
+    ("last-name-only", "b = 2\nf = fn() -> int {\n  [q, b] = [1, b]\n  return q * 10 + b\n}\nprint f()\nb = 3\nprint f()\nprint b\n", ["12", "13", "3"]),
+    ("first-name-only", "b = 2\nf = fn() -> int {\n  [b, q] = [b, 1]\n  return b * 10 + q\n}\nprint f()\nprint b\n", ["21", "2"]),
+    ("const-swap", "a = 1\nb = 2\nf = fn() -> int {\n  const [a, b] = [b, a]\n  return a * 10 + b\n}\nprint f()\nprint a\n", ["21", "1"]),
+    ("swap-depth-3", "a = 1\nb = 2\no = fn() -> int {\n  i1 = fn() -> int {\n    i2 = fn() -> int {\n      [a, b] = [b, a]\n      return a * 10 + b\n    }\n    return i2()\n  }\n  return i1()\n}\nprint o()\nprint a\n", ["21", "1"]),
+    ("unpacked-names-are-locals", "a = 1\nb = 2\nrd = fn() -> int {\n  return a * 10 + b\n}\nf = fn() -> int {\n  [a, b] = [b, a]\n  a = a + 5\n  b += 1\n  return a * 10 + b\n}\nprint f()\nprint rd()\nprint f()\n", ["72", "12", "72"]),
+    ("expression-elements", "a = 1\nb = 2\nf = fn() -> int {\n  [a, b] = [a + b, a * 10]\n  return a * 100 + b\n}\nprint f()\nprint a + b\n", ["310", "3"]),
+    ("from-a-captured-list", "p: [int...] = [4, 6]\nf = fn() -> int {\n  [p, q] = [p[1], p[0]]\n  return p * 10 + q\n}\nprint f()\nprint p\n", ["64", "[4, 6]"]),
+    ("str-and-int", "n = 3\ns = \"ab\"\nf = fn() -> str {\n  [s, n] = [s + \"!\", n + 1]\n  return s + n\n}\nprint f()\nprint s + n\n", ["ab!4", "ab3"]),
+    ("in-a-block", "a = 1\nb = 2\nf = fn(k: int) -> int {\n  if k > 0 {\n    [a, b] = [b, a]\n    return a * 10 + b\n  }\n  return a * 10 + b\n}\nprint f(1)\nprint f(0)\n", ["21", "12"]),
+    ("after-modify", "a = 1\nb = 2\nf = fn() -> int {\n  modify a = a + 10\n  [a, b] = [b, a]\n  return a * 100 + b\n}\nprint f()\nprint a\nprint f()\n", ["211", "11", "221"]),
+    ("other-names-control", "mk = fn() -> fn() -> int {\n  a = 1\n  b = 2\n  return fn() -> int {\n    [x, y] = [b, a]\n    return x * 10 + y\n  }\n}\ng = mk()\nprint g()\nprint g()\n", ["21", "21"]),
+]
+
+
 def run(ctx):
     ok = core.coq_props(ctx, "Props/C07.v")
     binary = core.build_repo()
@@ -441,6 +462,14 @@ def run(ctx):
                        "closures collected by `list.map` and taken out of the result by %s (%s): %s, expected %r: %s"
                        % (how, form, "the program is refused" if refused else "printed %r (exit %d)" % (got, rc), exp, (out + err)[-300:].replace("\n", " ") if rc != 0 else ""),
                        {"program": src, "expected": exp, "observed": got, "rc": rc, "stderr": err[-600:], "how": "mscript run main.ms -q"})
+    for (form, src, exp), (rc, out, err) in zip(UNPACK_CASES, programs.pmap(one_view, [(c[1], c[2]) for c in UNPACK_CASES])):
+        got = out.split("\n")[:-1]
+        if rc != 0 or got != exp:
+            refused = "Did not compile" in (out + err)
+            ctx.report("unpacking-reads-captured-variable-of-a-declared-name", "an unpacking assignment in a function whose right side reads outer variables (%s): %s, expected %r: %s"
+                       % (form, "the program is refused" if refused else "printed %r (exit %d)" % (got, rc), exp, (out + err)[-300:].replace("\n", " ") if rc != 0 else ""),
+                       {"program": src, "expected": exp, "observed": got, "rc": rc, "stderr": err[-600:], "how": "mscript run main.ms -q"})
+    ctx.cov["unpack_cases"] = len(UNPACK_CASES)
     ctx.cov["collected_by_map_cases"] = len(COLLECTED_CASES)
     ctx.cov["owner_write_cases"] = len(OWNER_WRITE_CASES)
     ctx.cov["closure_flag_cases"] = len(CLOSURE_FLAG_CASES)
@@ -448,7 +477,7 @@ def run(ctx):
     ctx.cov["view_cases"] = len(vcs)
     ctx.cov["capture_position_cases"] = len(cps)
     ctx.cov["modify_alias_cases"] = len(MODIFY_ALIAS_CASES)
-    ctx.cov["evaluations"] = st["programs"] + len(vcs) + len(cps) + len(MODIFY_ALIAS_CASES) + len(CLOSURE_FLAG_CASES) + len(SELF_CAPTURE_CASES) + len(OWNER_WRITE_CASES) + len(COLLECTED_CASES)
+    ctx.cov["evaluations"] = st["programs"] + len(vcs) + len(cps) + len(MODIFY_ALIAS_CASES) + len(CLOSURE_FLAG_CASES) + len(SELF_CAPTURE_CASES) + len(OWNER_WRITE_CASES) + len(COLLECTED_CASES) + len(UNPACK_CASES)
     ctx.cov["distinct_nontrivial"] = len(set(r["proj"]["files"]["main.ms"] for r in results if r["status"] == "ran" and "modify" in r["proj"]["files"]["main.ms"]))
     ctx.cov["rule"] = ("closure programs: 1-3 owners (module-level variable with reader/writer/shadowing closures; factory returning a stepping closure that "
                        "shares a cell with a second closure, instantiated twice; depth-3 nesting with a modify from the innermost function), random histories of "
@@ -460,5 +489,5 @@ def run(ctx):
     ctx.cov["trusted_base"] = ["Coq 8.16.1 kernel; no axioms", "extraction + drivers", "hooks H1/H3"]
     ctx.assumptions = ["Lang/Eval.v (lexical scoping, capture by reference, modify writes the captured cell, plain assignment declares a local) is the specification",
                        "capture lists: T1 compares the make_function arguments of the real compiler with Compile.free_vars as sets"]
-    spec_failed = any(v[0].startswith(("semantics:", "captured-variable:", "modify-is-not-a-declaration:", "captures-nothing-is-not-a-closure:", "closure-reachable-from-its-own-capture:", "one-variable-one-cell:", "closures-collected-by-map:")) for v in ctx.viol)
+    spec_failed = any(v[0].startswith(("semantics:", "captured-variable:", "modify-is-not-a-declaration:", "captures-nothing-is-not-a-closure:", "closure-reachable-from-its-own-capture:", "one-variable-one-cell:", "closures-collected-by-map:", "unpacking-reads-captured-variable")) for v in ctx.viol)
     core.proof_or_search(ctx, ok, ["C07 obligations"], spec_failed)
